@@ -292,9 +292,9 @@ PROPS["C11"] = {
     "outside": "LEVELS > 2, MarketEnv records (C14), more than one step in a row (induction over k is the stated argument)",
     "explanation": "One step from an environment with k arbitrary prior records: every series (touch prices, side volumes, per-level volumes and order counts for each level, per-step traded volume) has k+1 entries, the earlier entries are unchanged, the last entry equals the value read from the live book's own getters after the step (bid series from bid getters, ask from ask, on asymmetric books), and the per-step traded volume equals the sum of the trades stamped within the step: the step resets the book's counter before the first instruction and records it after the last (loop harnesses), every instruction of the batch is stamped inside the step (loop harnesses), and the book's counter grows by exactly the volume of the records each operation appends (C03's ledger audit, re-used here for placements and modifications).",
     "stubs": [STUB_LOOP, "std BTreeMap -> verif_map (cfg(kani) only)"],
-    "harnesses": [STEP_HARNESSES[3], STEP_HARNESSES[4], STEP_HARNESSES[5], STEP_HARNESSES[6], STEP_HARNESSES[7], STEP_HARNESSES[0], STEP_HARNESSES[1], MLOOP,
+    "harnesses": [STEP_HARNESSES[3], STEP_HARNESSES[4], STEP_HARNESSES[5], STEP_HARNESSES[6], STEP_HARNESSES[7], STEP_HARNESSES[0], dict(STEP_HARNESSES[1], tiers=("thorough",)), MLOOP,
                   book("c03_modify_m2", "the counter a step records is exact: traded-volume counter delta == sum of the records appended, for modifications (re-pricing that executes included)"),
-                  book("c03_place_bid_limit_m2", "same for placements (bid limit)"),
+                  book("c03_place_bid_limit_m2", "same for placements (bid limit)", tiers=("thorough",)),
                   book("c03_place_ask_market_m2", "same for placements (ask market)", tiers=("thorough",))],
 }
 
